@@ -212,6 +212,37 @@ pub fn run(ctx: &Ctx) -> i32 {
                 });
             }
         }
+        // long lists with repetitions (9 .. 40 entries): a kind may first appear after any number of others
+        {
+            let mut rng = vcore::Rng::derive(ctx.seed, 0xC17, 0);
+            let n_long: usize = ctx.tier.pick(20_000, 400_000);
+            for _ in 0..n_long {
+                let len = 9 + rng.below(32);
+                // mostly few distinct kinds, the rare ones placed late
+                let k = 1 + rng.below(8);
+                let mut pool: Vec<usize> = (0..8).collect();
+                rng.shuffle(&mut pool);
+                let common = &pool[..k.min(3)];
+                let mut idx: Vec<usize> = (0..len).map(|_| common[rng.below(common.len())]).collect();
+                for (j, late) in pool[k.min(3)..k].iter().enumerate() {
+                    let at = len - 1 - (j % len.min(4));
+                    idx[at] = *late;
+                }
+                one(&mut acc, &idx, "long_sequences_with_repetitions");
+            }
+            // deterministic: eight or more copies of one kind followed by each other kind, and reversed
+            for a in 0..8usize {
+                for b in 0..8usize {
+                    for copies in [7usize, 8, 9, 16] {
+                        let mut idx = vec![a; copies];
+                        idx.push(b);
+                        one(&mut acc, &idx, "long_sequences_with_repetitions");
+                        idx.reverse();
+                        one(&mut acc, &idx, "long_sequences_with_repetitions");
+                    }
+                }
+            }
+        }
         if shard == 0 {
             // (iv) the empty list
             let e = value_kinds_description_json(&[]);
@@ -252,7 +283,7 @@ pub fn run(ctx: &Ctx) -> i32 {
         acc,
         Finish {
             level: "exploration",
-            rule: "every sequence of value kinds of length 1..=5 with repetitions (8+64+512+4096+32768 = 37448), the empty list, and every permutation of every subset of 6, 7 and 8 kinds (28*720 + 8*5040 + 40320 = 100800), so that all 256 sets are reached; plus the 255 sorted duplicate-free reference sequences. Oracle: (i) output equals the output of the sorted duplicate-free sequence of the same set; (ii) the phrase parses as `a` / `a or b` / `a, b, ..., or z` over the 9-item vocabulary and its item set is the one the statement gives (Float => `a number` absorbing both integer kinds; both integer kinds without Float => `an integer`; else individual names); no item twice; (iii) any two items keep one relative order over all 256 outputs; (iv) the empty list gives a non-empty text naming no item. Non-trivial = sequence of >= 2 kinds (order or multiplicity can matter); distinct = the sequence.".into(),
+            rule: "every sequence of value kinds of length 1..=5 with repetitions (8+64+512+4096+32768 = 37448), the empty list, and every permutation of every subset of 6, 7 and 8 kinds (28*720 + 8*5040 + 40320 = 100800), so that all 256 sets are reached; plus the 255 sorted duplicate-free reference sequences; plus (not part of the exhaustive claim) seeded lists of 9..40 entries with repetitions in which rare kinds appear late, and 8..17-entry lists made of copies of one kind followed / preceded by another. Oracle: (i) output equals the output of the sorted duplicate-free sequence of the same set; (ii) the phrase parses as `a` / `a or b` / `a, b, ..., or z` over the 9-item vocabulary and its item set is the one the statement gives (Float => `a number` absorbing both integer kinds; both integer kinds without Float => `an integer`; else individual names); no item twice; (iii) any two items keep one relative order over all 256 outputs; (iv) the empty list gives a non-empty text naming no item. Non-trivial = sequence of >= 2 kinds (order or multiplicity can matter); distinct = the sequence.".into(),
             exhaustive: true,
             assumptions: vec!["the item vocabulary is the one pinned by the repository's snapshot test (null, a boolean, a positive integer, a negative integer, an integer, a number, a string, an array, an object)".into()],
         },
